@@ -193,6 +193,7 @@ type nilAnalysis struct {
 	usedAssum map[string]bool
 	pinned    map[string]bool // "<function name>/<ssa name>": facts about this value are kept although it is dead
 	validated bool
+	inLoader  bool // while loading, the closure of type names has not been checked yet
 	entry     map[*ssa.Function]map[*ssa.BasicBlock]nstate // memo: state at block entry
 	inProg    map[*ssa.Function]bool
 	nonNilMaps map[string]bool // Schema map fields whose stored values are never nil
@@ -418,7 +419,7 @@ func (a *nilAnalysis) possiblyNil(v ssa.Value, seen map[ssa.Value]bool) string {
 					return ""
 				}
 				// keyed by the name of a schema-owned type: closed by the loader (C07.R2)
-				if f == "Types" && a.schemaTypeName(x.Index) {
+				if f == "Types" && !a.inLoader && a.schemaTypeName(x.Index) {
 					return ""
 				}
 			}
